@@ -500,6 +500,10 @@ func (s *SMT) literalHooks() []string {
 		if want["isempty"] {
 			out = append(out, fmt.Sprintf("(assert (= (isempty %s) %s))", n, b(len(v) == 0)))
 		}
+		if want["sqlfixed"] {
+			// program constants are fixed statement text
+			out = append(out, fmt.Sprintf("(assert (sqlfixed %s))", n))
+		}
 		if want["firstbyte"] && len(v) >= 1 {
 			out = append(out, fmt.Sprintf("(assert (= (bget %s 0) %d))", n, v[0]))
 		}
